@@ -28,11 +28,7 @@ def gen_req(draw, idx, probe=False):
     kind = draw(st.sampled_from(["idless", "idless", "pool", "versioned"] if probe else
                                 ["pool", "pool", "pool", "batch", "creator"]))
     if kind == "idless":
-        op = draw(st.sampled_from(hist.PLACEHOLDER_OPS + ["Activate", "Revoke"]))
-        if op in ("Activate", "Revoke"):
-            # identifier-less Activate/Revoke cannot be decoded by the server (C01/C19 finding);
-            # use ops whose request payload may omit the identifier
-            op = "Destroy"
+        op = draw(st.sampled_from(hist.PLACEHOLDER_OPS))
         if op in ("Encrypt", "MAC", "Sign") and v < (1, 2):
             v = (1, 2)
         items = [hist.placeholder_item(op, v)]
